@@ -47,8 +47,12 @@ if [ "${SEED_PHASE:-all}" = "confirm" ]; then
 fi
 # --- run the check against /repo with the patch applied
 cd /repo && git apply $DEST/patch.diff || { echo "patch does not apply in /repo"; exit 2; }
+cp /verif/evidence/$PROP.json /tmp/evidence_$PROP.keep 2>/dev/null
 cd /verif && ./check $PROP > $DEST/check_output.txt 2>&1; RC=$?
 git -C /repo checkout -- .
+# the evidence file describes the unchanged tree: put back what the run against the patch overwrote
+cp /verif/evidence/$PROP.json $DEST/evidence_with_patch.json 2>/dev/null
+mv /tmp/evidence_$PROP.keep /verif/evidence/$PROP.json 2>/dev/null
 VIOL=$(grep -c "^VIOLATION" $DEST/check_output.txt)
 python3 - "$ID" "$PROP" "$BUILD" "$WITH" "$WITHOUT" "$BASE" "$RC" "$VIOL" "$DEMO_DEST" "$PKG" "$RUN" <<'PY'
 import json,sys
